@@ -160,6 +160,23 @@ ApplyReset(m, e, step) ==
 ApplyDtEvaluate(m, e, step) ==
   R([m EXCEPT !.phase = "dt", !.emitted = e.ret, !.fed = e.w], ExcClass(TRUE, e, "dt_evaluate.exc", step), 0)
 
+\* get_value(n) in dense time (C12): the list returned for a name denotes SigC of the formula bound to the name on
+\* the input domain (offline; online: on the region it covers); for an input variable it denotes the supplied signal
+ApplyGet(m, e, obj, step) ==
+  LET f0 == ExcClass(TRUE, e, "get.exc", step)
+      m1 == [m EXCEPT !.gets = Append(m.gets, [n |-> e.n, v |-> e.ret])] IN
+  IF f0 # Ok \/ ~HasData(m) \/ e.ret = <<>> THEN R(m1, f0, 0)
+  ELSE
+    LET d0 == D0(m) d1 == D1(m) n == d1 - d0 + 1
+        isvar == e.n \in m.cfg.vars
+        ex == IF isvar THEN CellsOf(m.fed, {e.n}, d0, d1)[e.n] ELSE Expected(m, Desugar(obj.names[e.n]))
+        lo2 == IF m.phase = "offline" THEN 2 * d0 ELSE e.ret[1][1]
+        hi2 == IF m.phase = "offline" THEN 2 * d1 ELSE e.ret[Len(e.ret)][1]
+        k == Mismatch(e.ret, ex, d0, n, 0, lo2, hi2) IN
+    IF ~Monotone(e.ret) THEN R(m1, F("get.monotone", step, "non-decreasing", e.ret), 0)
+    ELSE IF k # 0 THEN R(m1, F("get.value", step, <<k, d0, ex>>, e.ret), 0)
+    ELSE R(m1, Ok, 0)
+
 Apply(c, e, step) ==
   LET m == ms[e.o] obj == c.objs[e.o] IN
   IF m.dead THEN R(m, Ok, 0) ELSE
@@ -168,6 +185,7 @@ Apply(c, e, step) ==
     [] e.a = "evaluate" -> ApplyEvaluate(m, e, step)
     [] e.a = "update"   -> ApplyUpdate(m, e, step)
     [] e.a = "reset"    -> ApplyReset(m, e, step)
+    [] e.a = "get"      -> ApplyGet(m, e, obj, step)
     [] e.a = "dt_evaluate" -> ApplyDtEvaluate(m, e, step)
 
 \* relations between objects at the end of a case
@@ -181,6 +199,12 @@ RelFail(c, r) ==
          LET a == ms[r.x].emitted b == ms[r.y].emitted
              both == {t \in Covered(a) \cup Covered(b) : Within(a, t) /\ Within(b, t)} IN
          IF \A t2 \in both : StepAt(a, t2) = StepAt(b, t2) THEN Ok ELSE F("rel.same_fn", 0, a, b)
+    [] r.rel = "get_fn" ->         \* C12: get_value(n) on x denotes the same function as the result of the stand-alone y
+         LET gs == SelectSeq(ms[r.x].gets, LAMBDA g : g.n = r.n)
+             a == IF gs = <<>> THEN <<>> ELSE gs[Len(gs)].v
+             b == ms[r.y].emitted
+             both == {t \in Covered(a) \cup Covered(b) : Within(a, t) /\ Within(b, t)} IN
+         IF gs # <<>> /\ \A t2 \in both : StepAt(a, t2) = StepAt(b, t2) THEN Ok ELSE F("rel.get_fn", 0, b, a)
     [] r.rel = "sampled_eq" ->     \* C19: dense result x sampled at the discrete instants = discrete result y, while k + h < N
          LET a == ms[r.x].emitted b == ms[r.y].emitted N == Len(b) IN
          IF \A k \in 1..N : (k + r.h <= N) => StepAt(a, b[k][1]) = b[k][2] THEN Ok
